@@ -108,6 +108,10 @@ impl M {
                 self.env[*x] = V::of(l);
                 Flow::Next
             }
+            Stmt::AssignVar(x, y) => {
+                self.env[*x] = self.env[*y];
+                Flow::Next
+            }
             Stmt::Probe(x) => {
                 let id = self.probe_ids[&(s as *const Stmt)];
                 self.trace.push((id, self.env[*x].atom().to_string()));
